@@ -469,3 +469,8 @@ package cgroup
 //@   assume os.ErrExist != nil
 //@   assigns G.made, G.rmdir
 //@   ensures err == nil ==> cg != nil && ref_as(cg, V1) != nil
+// the exported entry: whichever hierarchy is in use, success means a handle
+//@ func pkg/cgroup.OpenExisting props C20
+//@   arith int
+//@   requires ct != nil
+//@   ensures result.1 == nil ==> result.0 != nil
